@@ -222,7 +222,7 @@ def item_averager(repo, out):
     k = _find_func(tree, '_average_visibilities', rel)
     src = _norm(k)
     for w in ['av_n_time=n_time//timeav', 'av_n_chans=n_chans//chanav', 'scale=weight.dtype.type(1.0/(timeav*chanav))',
-              'f=flag_u8[t,c,b1]!=0', 'iff:w=wzero', 'flag_any[b]|=f', 'flag_all[b]&=f', 'vis_sum[b]+=v',
+              'iff:w=wzero', 'flag_any[b]|=f', 'flag_all[b]&=f', 'vis_sum[b]+=v',
               'vis_weight_sum[b]+=w*v', 'weight_sum[b]+=w', 'w=np.float32(weight_sum[b])',
               'ifnotw:v=vis_sum[b]*scaleelse:v=vis_weight_sum[b]/w', 'f=flag_any[b]ifflagavelseflag_all[b]',
               'fortinrange(tstart,tstart+timeav):forcinrange(cstart,cstart+chanav):',
@@ -470,10 +470,11 @@ def item_averager_blocks(repo, out):
             or _norm(fin.target) != 'b' or _norm(fin.iter) != 'range(bstop-bstart)':
         raise TranslateError('%s: accumulation / finishing loop headers changed' % rel)
     src = _norm(acc)
-    for w in ['forcinrange(cstart,cstart+chanav):forbinrange(bstop-bstart):b1=b+bstartv=vis[t,c,b1]w=weight[t,c,b1]'
-              'f=flag_u8[t,c,b1]!=0iff:w=wzero']:
-        if w not in src:
-            raise TranslateError('%s: accumulation loop body changed' % rel)
+    # (the flag test `flag_u8[t, c, b1] <op> <int>` itself is regenerated by item_averager_flag_byte)
+    import re as _re
+    if not _re.search(r'forcinrange\(cstart,cstart\+chanav\):forbinrange\(bstop-bstart\):b1=b\+bstartv=vis\[t,c,b1\]'
+                      r'w=weight\[t,c,b1\]f=flag_u8\[t,c,b1\](!=|==|>=|<=|>|<)\d+iff:w=wzero', src):
+        raise TranslateError('%s: accumulation loop body changed' % rel)
     if not _norm(fin).startswith('forbinrange(bstop-bstart):b1=b+bstartw=np.float32(weight_sum[b])'):
         raise TranslateError('%s: finishing loop body changed' % rel)
     out.append('(* katdal/averager.py defaults and baseline blocking *)')
@@ -520,5 +521,204 @@ def item_v3_weights(repo, out):
     out.append('Definition v3_unselected_num : Z := (1)%Z.')
 
 
+
+# =========================================================================== round 3 items (Van Vleck table, flag bytes)
+from vh.translate import parse_template
+
+
+def _tmpl(text):
+    """a template statement in the translator's normal form, spaces removed"""
+    return _norm(parse_template(text))
+
+
+def _q(v, what):
+    """exact rational of a float / int literal"""
+    try:
+        return Fraction(v)
+    except (TypeError, ValueError, OverflowError):
+        raise TranslateError('%s: not a finite number: %r' % (what, v))
+
+
+def _int_expr_Z(node, var, what):
+    """tiny integer language over ONE name: literals, + - * // -> Gallina (Z)"""
+    if isinstance(node, ast.Constant) and isinstance(node.value, int) and not isinstance(node.value, bool):
+        return '(%d)' % node.value
+    if isinstance(node, ast.Name) and node.id == var:
+        return var
+    if isinstance(node, ast.BinOp) and isinstance(node.op, (ast.Add, ast.Sub, ast.Mult, ast.FloorDiv)):
+        op = {ast.Add: '+', ast.Sub: '-', ast.Mult: '*', ast.FloorDiv: '/'}[type(node.op)]
+        return '(%s %s %s)' % (_int_expr_Z(node.left, var, what), op, _int_expr_Z(node.right, var, what))
+    raise TranslateError('%s: unsupported integer expression %s' % (what, _norm(node)))
+
+
+def _call(node, func, what):
+    if not (isinstance(node, ast.Call) and _norm(node.func) == func):
+        raise TranslateError('%s: expected a call of %s, got %s' % (what, func, _norm(node)[:80]))
+    return node
+
+
+def _emit_q(out, name, fr):
+    out.append('Definition %s_num : Z := (%d)%%Z.' % (name, fr.numerator))
+    out.append('Definition %s_den : positive := %d%%positive.' % (name, fr.denominator))
+
+
+def item_vv_table(repo, out):
+    """van_vleck.autocorr_lookup_table: the grid of true powers (two logspace calls: exponents, counts as functions of
+    `size`, endpoint), the anchor point put in front of both columns, the clip at the top, the two factors, the statement
+    order; the numerical helpers statement by statement; the default size and the default levels."""
+    rel = 'katdal/van_vleck.py'
+    tree = _parse(repo, rel)
+    fn = _find_func(tree, 'autocorr_lookup_table', rel)
+    if [a.arg for a in fn.args.args] != ['levels', 'size']:
+        raise TranslateError('%s: autocorr_lookup_table arguments changed' % rel)
+    d = _defaults(fn)
+    try:
+        size = int(d['size'])
+    except (KeyError, ValueError):
+        raise TranslateError('%s: default of size is not an integer literal' % rel)
+    body = [s for s in fn.body
+            if not (isinstance(s, ast.Expr) and isinstance(s.value, ast.Constant) and isinstance(s.value.value, str))]
+    if len(body) != 9:
+        raise TranslateError('%s: autocorr_lookup_table has %d statements, expected 9' % (rel, len(body)))
+    fixed = {0: 'abs_levels = np.abs(levels)', 1: 'sxx_min_nonzero = abs_levels[abs_levels > 0].min() ** 2',
+             2: 'sxx_max = abs_levels.max() ** 2', 4: 'rxx_grid *= sxx_min_nonzero',
+             5: 'sxx_mean = _squared_quant_norm0_mean(levels, rxx_grid)'}
+    for i, t in fixed.items():
+        if _norm(body[i]) != _tmpl(t):
+            raise TranslateError('%s: autocorr_lookup_table statement %d is not `%s`: %s' % (rel, i, t, _norm(body[i])))
+    # ---- rxx_grid = np.r_[np.logspace(lo, 0, n_low, endpoint=False), np.logspace(0, np.log10(...) + extra, n_high)]
+    g = body[3]
+    if not (isinstance(g, ast.Assign) and _norm(g.targets[0]) == 'rxx_grid' and isinstance(g.value, ast.Subscript)
+            and _norm(g.value.value) == 'np.r_' and isinstance(g.value.slice, ast.Tuple) and len(g.value.slice.elts) == 2):
+        raise TranslateError('%s: rxx_grid is not np.r_[<low part>, <high part>]' % rel)
+    parts = []
+    for k, c in enumerate(g.value.slice.elts):
+        c = _call(c, 'np.logspace', '%s: rxx_grid part %d' % (rel, k))
+        kws = {kw.arg: kw.value for kw in c.keywords}
+        if len(c.args) != 3 or set(kws) - {'endpoint'}:
+            raise TranslateError('%s: rxx_grid part %d is not np.logspace(start, stop, num[, endpoint=])' % (rel, k))
+        ep = kws.get('endpoint', ast.Constant(True))
+        if not (isinstance(ep, ast.Constant) and isinstance(ep.value, bool)):
+            raise TranslateError('%s: endpoint= of rxx_grid part %d is not a boolean literal' % (rel, k))
+        parts.append((c.args, ep.value))
+    (lo_a, lo_ep), (hi_a, hi_ep) = parts
+    lo_start = _q(_float_expr(lo_a[0], 'low start'), 'low start')
+    lo_stop = _q(_float_expr(lo_a[1], 'low stop'), 'low stop')
+    hi_start = _q(_float_expr(hi_a[0], 'high start'), 'high start')
+    top = hi_a[1]
+    if not (isinstance(top, ast.BinOp) and isinstance(top.op, ast.Add)
+            and _norm(top.left) == _tmpl('np.log10(sxx_max / sxx_min_nonzero)')):
+        raise TranslateError('%s: stop of the high part is not np.log10(sxx_max / sxx_min_nonzero) + <const>' % rel)
+    extra = _q(_float_expr(top.right, 'high extra'), 'high extra')
+    n_low = _int_expr_Z(lo_a[2], 'size', '%s: number of low grid points' % rel)
+    n_high = _int_expr_Z(hi_a[2], 'size', '%s: number of high grid points' % rel)
+    # ---- sxx_table = np.r_[a, sxx_mean, sxx_max]; rxx_table = np.r_[b, rxx_grid, rxx_grid[-1]]
+    anchors = []
+    for i, (tgt, mid, last) in ((6, ('sxx_table', 'sxx_mean', 'sxx_max')), (7, ('rxx_table', 'rxx_grid', 'rxx_grid[-1]'))):
+        s = body[i]
+        if not (isinstance(s, ast.Assign) and _norm(s.targets[0]) == tgt and isinstance(s.value, ast.Subscript)
+                and _norm(s.value.value) == 'np.r_' and isinstance(s.value.slice, ast.Tuple)
+                and len(s.value.slice.elts) == 3 and _norm(s.value.slice.elts[1]) == mid
+                and _norm(s.value.slice.elts[2]) == _tmpl(last)):
+            raise TranslateError('%s: %s is not np.r_[<anchor>, %s, %s]' % (rel, tgt, mid, last))
+        anchors.append(_q(_float_expr(s.value.slice.elts[0], tgt + ' anchor'), tgt + ' anchor'))
+    r = body[8]
+    if not (isinstance(r, ast.Return) and isinstance(r.value, ast.Tuple) and len(r.value.elts) == 2):
+        raise TranslateError('%s: autocorr_lookup_table does not return a pair' % rel)
+    factors = []
+    for e, nm in zip(r.value.elts, ('sxx_table', 'rxx_table')):
+        if not (isinstance(e, ast.BinOp) and isinstance(e.op, ast.Mult) and _norm(e.right) == nm):
+            raise TranslateError('%s: returned column is not <factor> * %s' % (rel, nm))
+        factors.append(_q(_float_expr(e.left, nm + ' factor'), nm + ' factor'))
+    # ---- numerical helpers, statement by statement (outside the model: fail-closed only)
+    helpers = {'_quant_norm0_pmf': ['edges = np.r_[-np.inf, levels[:-1] + np.diff(levels) / 2., np.inf]',
+                                    'return np.diff(norm0_cdf(edges, np.sqrt(var)))'],
+               '_squared_quant_norm0_mean': ['levels = np.asarray(levels)', 'var = np.asarray(var)[..., np.newaxis]',
+                                             'pmf = _quant_norm0_pmf(levels, var)', 'return pmf.dot(levels * levels)'],
+               'norm0_cdf': ['return 0.5 * (math.erf(np.sqrt(0.5) * x / scale) + 1.)']}
+    for nm, want in helpers.items():
+        h = _find_func(tree, nm, rel)
+        if _stmts(h.body) != [_tmpl(t) for t in want]:
+            raise TranslateError('%s: %s changed: %s' % (rel, nm, _stmts(h.body)))
+    # ---- default levels of the caller: np.arange(-127., 128.)
+    rel2 = 'katdal/vis_flags_weights.py'
+    cq_ = _find_func(_parse(repo, rel2), 'correct_autocorr_quantisation', rel2)
+    lv = [s for s in ast.walk(cq_) if isinstance(s, ast.Assign) and _norm(s.targets[0]) == 'levels']
+    if len(lv) != 1:
+        raise TranslateError('%s: default levels not assigned exactly once' % rel2)
+    c = _call(lv[0].value, 'np.arange', '%s: default levels' % rel2)
+    if len(c.args) != 2 or c.keywords:
+        raise TranslateError('%s: default levels are not np.arange(a, b)' % rel2)
+    a_lo, a_hi = [_q(_float_expr(x, 'levels'), 'levels') for x in c.args]
+    if a_lo.denominator != 1 or a_hi.denominator != 1:
+        raise TranslateError('%s: default levels are not integers' % rel2)
+    out.append('(* katdal/van_vleck.py autocorr_lookup_table *)')
+    _emit_q(out, 'vv_anchor_sxx', anchors[0])
+    _emit_q(out, 'vv_anchor_rxx', anchors[1])
+    _emit_q(out, 'vv_factor_sxx', factors[0])
+    _emit_q(out, 'vv_factor_rxx', factors[1])
+    _emit_q(out, 'vv_low_start', lo_start)
+    _emit_q(out, 'vv_low_stop', lo_stop)
+    _emit_q(out, 'vv_high_start', hi_start)
+    _emit_q(out, 'vv_high_extra', extra)
+    out.append('Definition vv_low_endpoint : bool := %s.' % ('true' if lo_ep else 'false'))
+    out.append('Definition vv_high_endpoint : bool := %s.' % ('true' if hi_ep else 'false'))
+    out.append('Definition vv_low_count (size : Z) : Z := %s.' % n_low)
+    out.append('Definition vv_high_count (size : Z) : Z := %s.' % n_high)
+    out.append('Definition vv_default_size : Z := (%d)%%Z.' % size)
+    out.append('Definition vv_default_levels_lo : Z := (%d)%%Z.' % a_lo.numerator)
+    out.append('Definition vv_default_levels_hi : Z := (%d)%%Z.' % a_hi.numerator)
+
+
+_CMP_Z = {ast.NotEq: 'negb (Z.eqb byte (%d))', ast.Eq: 'Z.eqb byte (%d)', ast.Gt: 'Z.ltb (%d) byte',
+          ast.GtE: 'Z.leb (%d) byte', ast.Lt: 'Z.ltb byte (%d)', ast.LtE: 'Z.leb byte (%d)'}
+
+
+def item_averager_flag_byte(repo, out):
+    """_average_visibilities: flags are read as BYTES (`flag.view(np.uint8)`), a sample is flagged by the regenerated
+    comparison `flag_u8[t, c, b1] <op> <int>`, a flagged sample gets the weight `wzero = weight.dtype.type(<const>)` by a
+    branch (never by arithmetic on the byte), and the five accumulations follow in the modelled order."""
+    rel = 'katdal/averager.py'
+    tree = _parse(repo, rel)
+    k = _find_func(tree, '_average_visibilities', rel)
+    top = _stmts(k.body)
+    if _tmpl('flag_u8 = flag.view(np.uint8)') not in top:
+        raise TranslateError('%s: `flag_u8 = flag.view(np.uint8)` not found' % rel)
+    wz = [s for s in k.body if isinstance(s, ast.Assign) and _norm(s.targets[0]) == 'wzero']
+    if len(wz) != 1:
+        raise TranslateError('%s: wzero not assigned exactly once' % rel)
+    c = _call(wz[0].value, 'weight.dtype.type', '%s: wzero' % rel)
+    if len(c.args) != 1 or c.keywords:
+        raise TranslateError('%s: wzero is not weight.dtype.type(<const>)' % rel)
+    wzero = _q(_float_expr(c.args[0], 'wzero'), 'wzero')
+    # the innermost accumulation body: the `for b in range(bstop - bstart)` loop nested in `for c` in `for t`
+    inner = [n for n in ast.walk(k) if isinstance(n, ast.For) and _norm(n.target) == 'b'
+             and any(isinstance(s, ast.Assign) and _norm(s.targets[0]) == 'f' and 'flag_u8' in _norm(s.value) for s in n.body)]
+    if len(inner) != 1:
+        raise TranslateError('%s: the accumulation loop over b (with the flag test) was not found exactly once' % rel)
+    body = inner[0].body
+    st = _stmts(body)
+    if len(body) != 10:
+        raise TranslateError('%s: accumulation loop body has %d statements, expected 10: %s' % (rel, len(body), st))
+    want_pre = [_tmpl('b1 = b + bstart'), _tmpl('v = vis[t, c, b1]'), _tmpl('w = weight[t, c, b1]')]
+    want_post = [_tmpl('flag_any[b] |= f'), _tmpl('flag_all[b] &= f'), _tmpl('vis_sum[b] += v'),
+                 _tmpl('vis_weight_sum[b] += w * v'), _tmpl('weight_sum[b] += w')]
+    if st[:3] != want_pre or st[5:] != want_post:
+        raise TranslateError('%s: accumulation loop body changed: %s' % (rel, st))
+    f = body[3]
+    t = f.value
+    if not (isinstance(t, ast.Compare) and len(t.ops) == 1 and _norm(t.left) == 'flag_u8[t,c,b1]'
+            and type(t.ops[0]) in _CMP_Z and isinstance(t.comparators[0], ast.Constant)
+            and isinstance(t.comparators[0].value, int) and not isinstance(t.comparators[0].value, bool)):
+        raise TranslateError('%s: flag test is not `flag_u8[t, c, b1] <op> <int literal>`: %s' % (rel, _norm(f)))
+    if st[4] != _tmpl('if f:\n    w = wzero').replace('\n', ''):
+        raise TranslateError('%s: a flagged sample is not given the weight wzero by `if f: w = wzero`: %s' % (rel, st[4]))
+    out.append('(* katdal/averager.py: the flag test on the byte behind a flag, the weight of a flagged sample *)')
+    out.append('Definition averager_flag_is_set (byte : Z) : bool := %s.' % (_CMP_Z[type(t.ops[0])] % t.comparators[0].value))
+    _emit_q(out, 'averager_wzero', wzero)
+
+
 ITEMS = [item_weight_power_scale, item_scale_weights, item_excision, item_averager,
-         item_narrow, item_vfw_options, item_excision_api, item_averager_blocks, item_v3_weights]
+         item_narrow, item_vfw_options, item_excision_api, item_averager_blocks, item_v3_weights,
+         item_vv_table, item_averager_flag_byte]
+
